@@ -171,6 +171,8 @@ func runC06(c *ctx) {
 		}
 		reported := map[string]bool{}
 		anyDelete := false
+		restarted := wi%3 == 0 // two worlds of three restart once
+		restartAt := c.rng.Intn(len(order))
 		for i, id := range order {
 			b := cw.blobs[id-1]
 			src.AddBlob(b.b)
@@ -211,6 +213,26 @@ func runC06(c *ctx) {
 			ix.VerifAwaitReindex()
 			if b.kind == "delete" {
 				anyDelete = true
+			}
+			// a client retries an upload: a blob that has arrived arrives a second time - by preference a delete claim
+			// that is still waiting for its target
+			if c.rng.Intn(3) == 0 {
+				dupID := order[c.rng.Intn(i+1)]
+				here := map[int]bool{}
+				for _, j := range order[:i+1] {
+					here[j] = true
+				}
+				for _, j := range order[:i+1] {
+					if d := cw.blobs[j-1]; d.kind == "delete" && !here[d.idep] {
+						dupID = j
+					}
+				}
+				d := cw.blobs[dupID-1]
+				if _, err := ix.ReceiveBlob(ctxb, d.b.BlobRef(), d.b.Reader()); err != nil {
+					c.rep.Notes = append(c.rep.Notes, "ReceiveBlob (second arrival): "+err.Error())
+				}
+				ix.VerifAwaitReindex()
+				c.count("observation_points", "second arrival of a "+d.kind+" blob")
 			}
 			// what a restart would load, over the very same rows
 			ix2, err := index.New(kv)
@@ -253,6 +275,13 @@ func runC06(c *ctx) {
 			// attribute cache vs the model, per permanode, at this prefix
 			_ = idx
 			c.addCaseC06(cw, order[:i+1], corp, corp2, w, needs+ready > 0 || anyDelete)
+			// the server restarts here: the rest of the history arrives at the index and corpus that were just loaded
+			// (always when blobs are waiting at the chosen moment of this world, else now and then)
+			if i+1 < len(order) && !restarted && (i == restartAt || (needs+ready > 0 && i > restartAt)) {
+				restarted = true
+				ix, corp = ix2, corp2
+				c.count("observation_points", map[bool]string{true: "restart in mid-history with blobs waiting", false: "restart in mid-history"}[needs+ready > 0])
+			}
 		}
 		kv.Close()
 		c.count("kv", kind)
